@@ -1,6 +1,7 @@
 import CedarVerif.Cedar.Pattern
 import CedarVerif.Lemmas.NoPanicLike
 import CedarVerif.Lemmas.NoPanicUtf8
+import CedarVerif.Lemmas.NoPanicDatetime
 /-
 C20 — No panics on arbitrary input (mirrored components).
 
@@ -108,5 +109,59 @@ open Cedar.NoPanic in
 example : sliceFrom ['é', 'a'] 1 = none := by decide +kernel
 open Cedar.NoPanic in
 example : sliceFrom ['é', 'a'] 4 = none := by decide +kernel
+
+/-! ### (c) `parse_datetime` (cedar-policy-core/src/extensions/datetime.rs)
+
+Mirror `NoPanic.parseDatetime` (`Cedar/NoPanic/Datetime.lean`): the regex captures are recognisers returning the capture
+strings; every `x.parse().unwrap()` (12 sites), the slices `&s[date_str.len()..]`, `&s[hms_str.len()..]`, `hms_str[1..]`,
+the u32 arithmetic in `UTCOffset::to_seconds`, `TimeDelta::new(-offset_in_secs, 0).unwrap()` and the chrono
+`NaiveDateTime + TimeDelta` overflow panic are explicit `.panic site` outcomes. (`parse_duration` uses `.ok()`/`?` on its
+captures and checked arithmetic throughout: it has no panic site; its value semantics is C07's subject.) -/
+
+open Cedar.NoPanic in
+/-- a capture of 1..9 ASCII digits (the patterns use `{2}`, `{3}`, `{4}`) always parses into `u32` -/
+theorem capture_parses_u32 (ds : List Char) (hd : ∀ c ∈ ds, Cedar.Ext.isDigit c = true) (h0 : 0 < ds.length) (h9 : ds.length ≤ 9) :
+    parseU32 ds = some (Cedar.Ext.natOfDigits ds) :=
+  (parseU32_digits ds hd h0 h9).1
+
+open Cedar.NoPanic in
+/-- `&s[prefix.len()..]` for a matched prefix is in bounds and on a char boundary (whatever follows, ASCII or not) -/
+theorem slice_after_prefix (pre rest : List Char) : sliceFrom (pre ++ rest) (bytes pre) = some rest :=
+  sliceFrom_prefix pre rest
+
+open Cedar.NoPanic in
+/-- for a valid offset (`hh < 24`, `mm < 60`) neither the u32 arithmetic nor `TimeDelta::new(..).unwrap()` can fail -/
+theorem offset_timedelta_in_range (positive : Bool) (hh mm : Nat) (h1 : hh < 24) (h2 : mm < 60) (k : Int → DtOutcome)
+    (hk : ∀ delta, Safe (k delta)) : Safe (offsetDelta positive hh mm k) :=
+  offsetDelta_safe positive hh mm h1 h2 k (fun d _ _ => hk d)
+
+open Cedar.NoPanic in
+/-- no input string reaches any of the panic sites of `parse_datetime` -/
+theorem no_panic_datetime_captures (s : List Char) : ∀ site, parseDatetime s ≠ .panic site :=
+  parseDatetime_safe s
+
+-- non-vacuity: every stage is reached; boundary values of each guard
+open Cedar.NoPanic in
+example : parseDatetime "9999-12-31T23:59:59.999-2359".toList = .ok 253402387139999 := by decide +kernel
+open Cedar.NoPanic in
+example : parseDatetime "0000-01-01T00:00:00+2359".toList = .ok (-62167305540000) := by decide +kernel
+open Cedar.NoPanic in
+example : parseDatetime "2024-02-29".toList = .ok 1709164800000 := by decide +kernel
+open Cedar.NoPanic in
+example : parseDatetime "2024-01-01T24:00:00Z".toList = .err "InvalidHMS" := by decide +kernel
+open Cedar.NoPanic in
+example : parseDatetime "2024-01-01T00:00:00+2400".toList = .err "InvalidOffset" := by decide +kernel
+-- a multi-byte char right after the matched prefix: the slice offset is still a boundary
+open Cedar.NoPanic in
+example : parseDatetime "2024-01-01é".toList = .err "InvalidHMSPattern" := by decide +kernel
+open Cedar.NoPanic in
+example : parseDatetime "2024-01-01T00:00:00😀".toList = .err "InvalidMSOffsetPattern" := by decide +kernel
+-- the unwrap really is a site: a non-digit or an overlong digit string does not parse into u32
+open Cedar.NoPanic in
+example : parseU32 "4294967296".toList = none := by decide +kernel
+open Cedar.NoPanic in
+example : parseU32 "4294967295".toList = some 4294967295 := by decide +kernel
+open Cedar.NoPanic in
+example : parseU32 [] = none := by decide +kernel
 
 end Cedar.C20
